@@ -662,7 +662,7 @@ func runC14(env *Env) {
 				nrefresh += 2
 			case "udp closewait":
 				nwait += 2
-			case "tcp peer":
+			case "tcp peer", "tcp half":
 				npeer += 8
 			default:
 				nclose += 16
@@ -688,6 +688,13 @@ func runC14(env *Env) {
 	for i := 0; i < npeer; i++ {
 		c := 1 + i%3
 		jobs = append(jobs, func(rng *Rng) { c14tcp(env, &out, rng, true, c) })
+	}
+	for i := 0; i < npeer/2; i++ {
+		c := 1 + i%3
+		jobs = append(jobs, func(rng *Rng) { c14tcpHalf(env, &out, rng, c) })
+	}
+	if nrefresh > 0 {
+		jobs = append(jobs, func(rng *Rng) { c14json(env, &out, rng) }, func(rng *Rng) { c14json(env, &out, rng) })
 	}
 	sem := make(chan struct{}, 8)
 	for i, j := range jobs {
